@@ -3,12 +3,67 @@ from helpers import R, E, F
 PROP = dict(
     id="C17",
     level="exploration",
-    level_text="tbd",
-    level_note="tbd",
+    level_text=("Differential property-based testing of the legacy benchstat library (Collection.AddConfig/AddResults, "
+                "Tables, UTest/TTest/NoDeltaTest, ByName/ByDelta/Reverse, AddGeoMean, FormatText/FormatCSV) against an "
+                "independent reference recomputation on generated collections of 1-4 configurations; searches for a "
+                "counterexample, does not prove absence."),
+    level_note=("Trusted: math/big (exact quartiles, fences, means, variances), strconv (value texts), math.Lgamma/Pow/Sin/Log/Exp "
+                "(Student-t tail by tanh-sinh quadrature, geometric mean), encoding/csv. The reference quadrature and the "
+                "rank-sum counting recurrence are cross-checked against closed forms (nu = 1, 2, 3, 4, normal limit, the 5% point "
+                "at nu = 10) and against brute-force enumeration by TestC17OracleSelf. Values are finite and non-negative, as "
+                "benchmark output is."),
     technique="property-based differential testing against an exact-arithmetic reference recomputation",
-    rule="tbd",
-    assumptions=["tbd"],
+    rule=("Case = 1-4 distinctly named configurations (weighted towards 2), each a sequence of benchmark lines "
+          "'Benchmark<name> <iters> <value> <unit>...' over 1-16 benchmark names (1-8 normally, 7-16 in the 'wide' class that "
+          "makes sort stability observable) and 1-3 units among ns/op, B/op, MB/s, x-ns/op, widgets/op, allocs/op, 1-25 values "
+          "per (configuration, benchmark, unit) drawn from per-benchmark plans (noisy with relative spread 0.1%-30%, constant, "
+          "all zero, mostly zero, small integer grid; per-configuration effect factor 0.5-2; injected outliers x/÷ 1.5-10), "
+          "optional missing benchmarks/units/empty configurations, verbatim repeated lines, noise lines, 'pkg:'/'goos:' file "
+          "labels and /key=value, /sub and -N name labels, lines in benchmark-by-benchmark, suite-repeated or shuffled order; "
+          "fed through AddConfig (text) or AddResults (hand-built results); settings DeltaTest in {nil, UTest, TTest, "
+          "NoDeltaTest}, Alpha in {0, 0.01, 0.05, 0.5}, SplitBy in {none, pkg, size, pkg+gomaxprocs, sub1, name, goos}, Order in "
+          "{nil, ByName, ByDelta, Reverse(ByName), Reverse(ByDelta), Reverse(Reverse(ByDelta))}, AddGeoMean, CSV norange. "
+          "Tables() is called exactly once per Collection. Checked per case: (1) one table per unit that has rows, in unit "
+          "first-appearance order, Configs in input order; (2) every cell: Values = input values in input order; RValues = the "
+          "values inside [Q1-1.5 IQR, Q3+1.5 IQR] (Hyndman-Fan type 8 quartiles, exact rational arithmetic, inclusive) in input "
+          "order, where a value within 1e-9 (relative to the largest magnitude involved) of a fence with IQR != 0 follows the "
+          "library's decision (labelled near_fence_skipped); Min/Max = min/max of the retained values exactly, Mean within "
+          "1e-12 relative of their exact mean and min-2ulp <= mean <= max+2ulp; (3) rows = (group, benchmark) pairs in "
+          "first-appearance order (groups first, then benchmarks within the group), with two configurations only the pairs "
+          "present in both; rows with no value at all for the unit are tolerated in 1- and >=3-configuration tables; under an "
+          "Order the rows must equal the stable (insertion) sort of that order by name or by |PctDelta|*Change; (4) two "
+          "configurations: if the test cannot be computed (U: all pooled retained values equal -> '(all equal)'; t: a retained "
+          "sample of <= 1 value -> '(too few samples)', both retained samples constant -> '(zero variance)') delta '~', "
+          "PctDelta 0, Change 0 and that note; otherwise a percentage delta appears iff the library's own DeltaTest p-value on "
+          "the row's metrics is < alpha (alpha 0 = 0.05; NoDeltaTest: p = -1, always shown, empty note), and iff the independent "
+          "p-value is < alpha: Welch t statistic from exact means/variances with the Student-t tail by numerical integration "
+          "(compared within 1e-6 plus the float64 conditioning of the t statistic; gate not asserted inside that band around "
+          "alpha), and for the U-test the exact two-sided permutation p-value min(1, 2 min(P(U<=u), P(U>=u))) by enumerating all "
+          "group assignments (n1+n2 <= 14) or by a rank-sum counting recurrence (larger), compared within 1e-9 and against "
+          "alpha in exact integer arithmetic. The independent U-test comparison is restricted to UNTIED pooled retained samples: "
+          "the library's two-sided exact p-value with ties is a known-wrong quantity (can be 0 or exceed 1), so for tied samples "
+          "only the consistency relations (delta iff the library's own p < alpha, note shows that p and the retained sizes) "
+          "are checked. A shown delta must satisfy PctDelta = (new mean/old mean - 1)*100 (1e-9 relative, against the reported "
+          "and the reference means; +Inf when the old mean is 0), the Delta text must show PctDelta to two decimals, Change = "
+          "+1 iff the new mean moved in the better direction (higher only for unit MB/s, lower for every other unit), equal "
+          "means give PctDelta 0; next to '~' the note must be '(p=P n=a+b)' with P the p-value to the printed decimals and "
+          "a, b the retained sample sizes (also checked when present next to a shown delta); (5) a '[Geo mean]' row only with "
+          "AddGeoMean, last, required when >= 2 benchmarks have non-zero means, each cell = geometric mean of the non-zero "
+          "means of that configuration (1e-9 relative; with two configurations either over all benchmarks or over the "
+          "displayed rows, both readings accepted), its PctDelta = (new/old - 1)*100; (6) FormatText and FormatCSV do not "
+          "panic, contain in order exactly one line/record per table row (first column = benchmark name), CSV mean columns "
+          "show the means to 1e-5. Non-trivial = two configurations, >= 2 benchmark names, at least one (group, benchmark, unit) "
+          "with >= 4 values on both sides. Distinct = distinct case JSON (64-bit FNV), capped at 300000 per shard."),
+    assumptions=[
+        "math/big, strconv, math and encoding/csv of the Go standard library are correct (trusted by the reference)",
+        "group names are rendered as 'label:value' pairs joined by one space (observed format, used only to identify rows of a group)",
+        "rows are identified by the literal benchmark name '[Geo mean]' for the geomean row; generated benchmark names start with an upper-case letter and contain no white space or ':'",
+        "values within 1e-9 relative of an outlier fence are not decided by the reference (float64 rounding of the fence may go either way); about 3-4% of cases contain such a value",
+        "the two-sided exact Mann-Whitney p-value with ties is known to be wrong in this code base; tied samples are checked for internal consistency only, never against an independent p-value",
+        "t-test p-values are compared within 1e-6 + 50 n 2^-53 kappa (kappa = amplification of mean/variance rounding in Welch's t); the significance gate is not asserted when the reference p lies within twice that of alpha",
+        "inputs avoid what the format documents as special: no blank line before the first benchmark line (permanent file header), no iteration count 0, no malformed values, no negative values, distinct configuration names",
+    ],
     units=[
-        R("rapid", "A", "./c17", "TestC17Rapid", (2500, 16), (100000, 16)),
+        R("rapid", "A", "./c17", "TestC17Rapid", (2000, 16), (80000, 16)),
     ],
 )
